@@ -440,7 +440,7 @@ def main_check(prop, tier, base_seed, budget, max_runs, workers, verbose=False):
     cross_found = []
     if prop == "C03" and not first_violation and not harness_errors and results:
         by_idx = {r["idx"]: r for r in results}
-        n_cross = min(len(results), 64 if tier == "quick" else 240)
+        n_cross = min(len(results), 160 if tier == "quick" else 400)
         # contiguous prefix only
         n_cross = next((i for i in range(n_cross) if i not in by_idx), n_cross)
         hs = (1, 4242) if tier == "quick" else (1, 4242, "random", 31337)
